@@ -567,7 +567,7 @@ class Fn:
                     base = ("bin", base[1], base[2], base[3])
                 elif base[0] == "checked" and e["f"] == 1:
                     base = ("ovf", base[1], base[2], base[3])
-                elif base[0] == "agg" and isinstance(base[2], tuple) and e["f"] < len(base[2]) and base[1][0] in ("tuple", "adt"):
+                elif base[0] == "agg" and isinstance(base[2], tuple) and e["f"] < len(base[2]) and base[1][0] in ("tuple", "adt", "closure"):
                     base = base[2][e["f"]]
                 else:
                     base = ("field", base, nm)
